@@ -130,8 +130,10 @@ def build_items(ctx, rnd):
                                   "accept" if exp else "reject", None, dict(desc="copy-initialisation Quantity<B,%s> = Quantity<A,%s>, A/B = %s" % (r2, r1, ratio.name), exp=exp)))
         if r1 == r2 and not (huge and model.is_fp(r1)):
             e2 = model.implicit_ok(ratio.mag, r1, r1)
-            items.append(witness.Item("as:" + key, h + "void w() { QA a = au::make_quantity<A>(R1{1}); (void)a.as(B{}); (void)a.in(B{}); }",
-                                      "accept" if e2 else "reject", None, dict(desc="unit-only .as/.in with rep %s, A/B = %s" % (r1, ratio.name), exp=e2)))
+            # one witness per access path: a reject witness with two statements is satisfied by either
+            for nm_, call in (("as", "a.as(B{})"), ("in", "a.in(B{})"), ("as_maker", "a.as(au::QuantityMaker<B>{})"), ("in_maker", "a.in(au::QuantityMaker<B>{})")):
+                items.append(witness.Item("%s:%s" % (nm_, key), h + "void w() { QA a = au::make_quantity<A>(R1{1}); (void)%s; }" % call,
+                                          "accept" if e2 else "reject", None, dict(desc="unit-only `%s` with rep %s, A/B = %s" % (call, r1, ratio.name), exp=e2)))
         # mixed-unit + and < : both operands must be implicitly convertible to the common type
         if model.mag_is_rational(ratio.mag) and not (huge and model.is_fp(model.common_type(r1, r2))):
             rc = model.common_type(r1, r2)
